@@ -267,6 +267,28 @@ pub fn c18() -> i32 {
         s.checks = CK_C02 | CK_C04;
         scns.push(s);
     }
+    // games that really diverge, with desync detection on: a DesyncDetected event per report and
+    // remote, for the whole run, drained or never drained
+    for (tp, w, desync) in [("1+1", 8usize, 1u32), ("1+1+1", 8, 1), ("1+1", 2, 3), ("2+1", 0, 1)] {
+        for drain in [true, false] {
+            for lossy in [false, true] {
+                let mut s = base_scn("c18-desyncing", tp, w, 0, false, Pred::RepeatLast, Program::Changing, 1);
+                for p in s.peers.iter_mut() {
+                    p.desync = desync;
+                    p.drain = drain;
+                }
+                s.diverge = Some((1, 20));
+                if lossy {
+                    s.background = Background { loss_every: 7, delay_every: 11, stall_every: 13 };
+                }
+                s.name = format!("{} desync={desync} drain={drain} lossy={lossy} node 1 diverges from frame 20", s.name);
+                s.horizon = rounds;
+                s.probe = 0;
+                s.checks = CK_C02 | CK_C04;
+                scns.push(s);
+            }
+        }
+    }
     // a spectator is disconnected explicitly (disconnect_player with its handle), or dies, while
     // the players go on: nothing may keep growing for it
     for (tp, w) in [("1+1", 8usize), ("2+1", 2), ("1+1", 0)] {
